@@ -401,6 +401,8 @@ OkC05(m, o) ==
           => (o.res # "ok" /\ o.ev = <<>>)
     \* what is delivered is what arrived, and it is a response or an indication: a request (for
     \* instance the client's own packet reflected back) is never an outcome, whatever id it carries
+    \* a received message can only conclude the transaction whose id it carries
+    /\ (o.op = "recv") => \A id \in FinalIds(o) : o.arg.d.ok /\ id = o.arg.d.id
     /\ \A i \in DOMAIN o.ev :
           (o.ev[i].k = "recvd") => /\ o.op = "recv" /\ o.arg.d.ok
                                    /\ o.ev[i].cls = o.arg.d.cls /\ o.ev[i].id = o.arg.d.id
